@@ -32,9 +32,6 @@ def avoid_zero_division(f: callable) -> callable:
 
         """
 
-        x += c.EPSILON
-        y += c.EPSILON
-
-        return f(x, y)
+        return f(x + c.EPSILON, y + c.EPSILON)
 
     return _avoid_zero_division
